@@ -122,6 +122,11 @@ def program(draw, nmax=8, kinds=('call', 'await', 'map', 'amap', 'wait'), immedi
         for o in out['prog'] + out['prog2']:
             if o['op'] == 'wait' and not o.get('inline') and draw(st.integers(0, 1)) == 0:
                 o['sleep'] = draw(st.sampled_from([U, T / 2, T, fdur / 2 if fdur else U, fdur if fdur else T]))
+    if foreign and all(o['op'] in ('call', 'map') and o.get('kind', 'list') in ('list', 'tuple', 'range') for fp in foreign for o in fp) \
+            and draw(st.integers(0, 2)) == 0:
+        # the foreign submitters are plain threads (no running loop of their own), possibly with the buffer's loop set as
+        # their current loop
+        out['foreign_mode'] = draw(st.sampled_from(['plain', 'plain-setloop']))
     if draw(st.integers(0, 3)) == 0:
         out['mixed_args'] = True      # arguments of mixed, mutually unorderable types ('range' iterables stay ints)
     if not shutdown and draw(st.integers(0, 4)) == 0:
@@ -223,6 +228,8 @@ def valid(case):
         if case.get('shutdown') is not None and (case['shutdown'] < 0 or case.get('foreign')):
             return False
         if not (0 <= case.get('shutdown_iters', 0) <= 8):
+            return False
+        if case.get('foreign_mode', 'loop') not in ('loop', 'plain', 'plain-setloop'):
             return False
         o = case.get('other')
         if o is not None and (case.get('shutdown') is not None or o['at'] < 0 or o['fdur'] < 0):
